@@ -11,6 +11,8 @@ import (
 	corevm "github.com/ethereum/go-ethereum/core/vm"
 
 	evmkeeper "github.com/EscanBE/evermint/v12/x/evm/keeper"
+	evmtypes "github.com/EscanBE/evermint/v12/x/evm/types"
+	"github.com/EscanBE/evermint/v12/zzverif/env"
 	evmvm "github.com/EscanBE/evermint/v12/x/evm/vm"
 	"github.com/EscanBE/evermint/v12/zzverif/model"
 	"github.com/EscanBE/evermint/v12/zzverif/verif"
@@ -140,4 +142,54 @@ func sameErrClass(a, b error) bool {
 		}
 	}
 	return true
+}
+
+// H_C01_5_TracerSettingIndependence: the node-local `evm.tracer` setting (app.toml / --evm.tracer: "", "access_list",
+// "struct") selects a go-ethereum logger that NewEVM attaches to every transaction execution; it is node-local
+// configuration and must not change any consensus result. The same message (call of the scripted contract, plain
+// transfer or creation) is executed with commit by a keeper built without tracer and by one built with the tracer
+// setting: same panic / error outcome, same gas used, VM error and return data, same persistent stores.
+func H_C01_5_TracerSettingIndependence() {
+	model.ResetScripts()
+	model.ResetTxs()
+	nonce := uint64(5)
+	env.Tracer = ""
+	w1 := NewWorld(nonce)
+	t := NewTx("tx")
+	t.Nonce = nonce
+	sc := model.NewScript("script", 1, []model.ActionKind{model.ActSStore, model.ActLog}, []common.Address{ThirdAddr, PlainAddr})
+	if t.Create {
+		sc.Ret = []byte{0x60, 0x00, 0x60, 0x00, 0x55, 0x00}
+	}
+	model.Scripts[ContractAddr] = sc
+	model.CreateScript = sc
+	env.Tracer = []string{"access_list", "struct"}[verif.Choice("nodeLocalTracerSetting", 2)]
+	w2 := &World{SenderBal: w1.SenderBal, ContrBal: w1.ContrBal, ContrBalO: w1.ContrBalO, ThirdBal: w1.ThirdBal, Rest: w1.Rest, BaseFee: w1.BaseFee}
+	w2.Build(nonce)
+	env.Tracer = ""
+	run := func(w *World) (*evmtypes.MsgEthereumTxResponse, error, bool) {
+		e := w.E
+		cfg := e.EVMConfig(e.Ctx, Coinbase, w.BaseFee)
+		txType := t.Type()
+		e.EK.IncreaseTxCountTransient(e.Ctx)
+		var resp *evmtypes.MsgEthereumTxResponse
+		var err error
+		p := verif.Try(func() {
+			resp, err = e.EK.ApplyMessageWithConfig(e.Ctx, t.Message(w.BaseFee), nil, true, cfg, evmvm.TxConfig{TxType: &txType})
+		})
+		return resp, err, p
+	}
+	r1, e1, p1 := run(w1)
+	r2, e2, p2 := run(w2)
+	verif.Assert("tracer-setting-does-not-make-the-execution-panic", p1 == p2)
+	if p1 || p2 {
+		return
+	}
+	verif.Assert("same-error-outcome", (e1 == nil) == (e2 == nil))
+	if e1 != nil || e2 != nil {
+		return
+	}
+	verif.Assert("same-result", r1.GasUsed == r2.GasUsed && r1.VmError == r2.VmError && string(r1.Ret) == string(r2.Ret))
+	verif.Assert("same-persistent-stores", samePersistent(w1.E.MS, w2.E.MS))
+	verif.Reach("compared")
 }
